@@ -55,7 +55,18 @@ class World:
         self.keep = []                      # keeps every object alive so that id() values are never reused
         self.ops = []                       # driver tokens of the operations done so far
         self.states = []
-        if typed:
+        if typed == "loaded0" or typed == "loaded2":
+            # a message obtained from the decoder (header only, or with two AVPs): the same container contract applies
+            from bromelia.avps import OriginHostAVP, VendorIdAVP
+            src = DiameterMessage(DiameterHeader(command_code=280, application_id=0))
+            if typed == "loaded2":
+                src.append(OriginHostAVP("host"))
+                src.append(VendorIdAVP(10415))
+            self.m = DiameterMessage.load(src.dump())[0]
+            for a in self.m.avps:
+                self.ops += ["A"] + self.obj_tokens(a)
+            self.n_init = len(self.m.avps)
+        elif typed:
             from bromelia.lib.ietf_rfc6733.messages import DeviceWatchdogRequest
             self.m = DeviceWatchdogRequest(origin_host="client.example", origin_realm="example")
             for a in self.m.avps:
@@ -220,7 +231,7 @@ def op_alphabet(small):
         keys = [("origin_host_avp", 0), ("origin_host_avp", 1), ("unknown_avp", 0), ("vendor_id_avp", 0)]
     ops = [("append", t) for t in dict.fromkeys(T)]
     ops += [("pop", k) for k in keys]
-    ops += [("cleanup",), ("refresh",), ("setavps", ("h", "h")), ("extend", ("h", "v")), ("setitem", 0, "H"), ("setitem", 1, "u"),
+    ops += [("cleanup",), ("refresh",), ("setavps", ("h", "h")), ("setavps", ()), ("setavps", ("u",)), ("extend", ("h", "v")), ("setitem", 0, "H"), ("setitem", 1, "u"),
             ("updatekey", ("origin_host_avp", 0), ("renamed_avp", 0)), ("updatekey", ("origin_host_avp", 1), ("origin_host_avp", 0)),
             ("updateavp", ("origin_host_avp", 0), "other.host"), ("updateavp", ("origin_host_avp", 1), "o"),
             ("updateavp", ("vendor_id_avp", 0), 5),
@@ -330,6 +341,11 @@ def run(chk):
     rnd = [[rng.choice(full) for _ in range(rng.choice([5, 8, 12, 20, 40]))] for _ in range(n_rand)]
     explore(chk, rnd, "random")
     explore(chk, rnd[: n_rand // 2], "random-typed", typed=True)
+    explore(chk, rnd[: n_rand // 2], "random-loaded-empty", typed="loaded0")
+    explore(chk, rnd[n_rand // 2:], "random-loaded", typed="loaded2")
+    short = [s for n in (1, 2) for s in itertools.product(full, repeat=n)]
+    explore(chk, short, "exhaustive-loaded-empty", typed="loaded0")
+    explore(chk, short, "exhaustive-loaded", typed="loaded2")
     chk.extra["exhaustive"] = True
     chk.extra["exhaustive_domain"] = "operation sequences up to length %d over %d operations; length %d over %d operations" % (L_full, len(full), L_small, len(small))
 
